@@ -1266,13 +1266,39 @@ func (c *Client) HandleServerShutdown(err error) error {
 		delete(c.subscribedAccts, key)
 	}
 	c.subscribedAcctsMtx.Unlock()
-	for _, acctKey := range acctKeys {
+	for idx, acctKey := range acctKeys {
 		err := c.StartAccountSubscription(context.Background(), acctKey)
 		if err != nil {
+			// We removed all subscriptions above but didn't get
+			// to re-create all of them. Remember the accounts we
+			// didn't try yet, otherwise they'd never be subscribed
+			// again by the next reconnect attempt.
+			c.keepSubscriptions(acctKeys[idx+1:])
 			return err
 		}
 	}
 	return nil
+}
+
+// keepSubscriptions adds an inactive subscription for each of the given
+// accounts that isn't currently subscribed. This makes sure the accounts are
+// picked up by the next call to HandleServerShutdown.
+func (c *Client) keepSubscriptions(acctKeys []*keychain.KeyDescriptor) {
+	c.subscribedAcctsMtx.Lock()
+	defer c.subscribedAcctsMtx.Unlock()
+
+	for _, acctKey := range acctKeys {
+		var acctPubKey [33]byte
+		copy(acctPubKey[:], acctKey.PubKey.SerializeCompressed())
+		if _, ok := c.subscribedAccts[acctPubKey]; ok {
+			continue
+		}
+		c.subscribedAccts[acctPubKey] = &acctSubscription{
+			acctKey: acctKey,
+			msgChan: make(chan *auctioneerrpc.ServerAuctionMessage),
+			quit:    make(chan struct{}),
+		}
+	}
 }
 
 // unmarshallServerAccount parses the account information sent from the
